@@ -508,7 +508,12 @@ func codecSqXattrWriter(c *hx.Ctx, r *hx.Rng) {
 		repro := fmt.Sprintf("VerifWriteXattrs(%d sets of 1..6 attributes, location %d) -> VerifReadXattrs", n, at)
 		if pan != "" || err != nil {
 			tag := "-"
-			if strings.Contains(pan, "slice bounds out of range") && back == nil && start == 0 {
+			switch {
+			case strings.Contains(pan, "slice bounds out of range") && back == nil && start == 0:
+				tag = tagSqXattrPanic
+			case pan == "" && err != nil && strings.Contains(err.Error(), "error reading xattr index meta block 0 at position 0"):
+				// an id table whose backing array happens to reach 8192 bytes (511, 512 sets) gets past the slicing; the header
+				// then lists the id blocks behind zeroed slots, so the reader looks for the first one at position 0 (same defect)
 				tag = tagSqXattrPanic
 			}
 			c.Fail(id, tag, fmt.Sprintf("writing / reading an xattr table of %d sets: %v %s", n, err, pan), repro)
